@@ -167,7 +167,10 @@ def _link(objs, keys, modname):
 
 
 def _overlay(so_map):
-    key = _h("ov", *[f"{m}={k}" for m, (k, _) in sorted(so_map.items())])
+    # the python side of the overlay is a set of symlinks into REPO: the key must include the tree,
+    # otherwise /repo and a scratch worktree with identical extension modules would share (and
+    # re-point) one overlay
+    key = _h("ov", os.path.realpath(REPO), *[f"{m}={k}" for m, (k, _) in sorted(so_map.items())])
     root = CACHE / "overlay" / key
     pkg = root / "whatshap"
     # (re)materialise the python side every time: cheap, and picks up added / removed files
